@@ -14,6 +14,7 @@ EXPLANATION = (
     "and clears them on every path; the batch envelope (kwargs slot None) is accepted by every serializer's dumpsCall/loadsCall."
     'Also decided: the call list is dropped also when the submission raises; BatchProxy.__copy__ does not share the call list; marshal converts the members of batch containers. '
     "Also decided (round 7): The proxy's call list is emptied in place, never re-bound (batched method objects obtained earlier keep queueing into it). "
+    "Also decided (round 9): The success path appends the call's result itself; the wrapper's payload is encoded by class_to_dict. "
     "Not decided: equivalence of effects with sequential execution on a stateful object."
 )
 
